@@ -8,6 +8,7 @@ FUNC = "solve_castle_wall"
 LOOP = True
 KIND = {"^": 1, "v": 2, "<": 3, ">": 4}
 TIER1 = ("CastleWall", "solve_castle_wall_model")
+TIER1_PRIM = ("CastleWallPrim", "solve_castle_wall_model_prim")
 
 
 def call(mod, pb):
